@@ -670,4 +670,14 @@ SELFTEST = [
          expect='silent'),
     dict(id='basic-era-line-differs', file='src/ace_time/zonedb/zone_infos.cpp', regex=True, unique=False, nth=0,
          find=r'//              0:00    -    GMT\n', replace='//              0:00    -    UTC\n', rule='C'),
+    # the two offset accessors through one member template over a pointer to data member: quiet when each names its own field,
+    # reported when the two instantiations are swapped
+    dict(id='offset-accessors-through-a-member-pointer-template-silent', file='src/ace_time/BasicZoneProcessor.h',
+         find='    TimeOffset getUtcOffset(acetime_t epochSeconds) const override {\n      const basic::Transition* transition = getTransition(epochSeconds);\n      int16_t minutes = (transition)\n          ? transition->offsetMinutes : TimeOffset::kErrorMinutes;\n      return TimeOffset::forMinutes(minutes);\n    }\n\n    TimeOffset getDeltaOffset(acetime_t epochSeconds) const override {\n      const basic::Transition* transition = getTransition(epochSeconds);\n      int16_t minutes = (transition)\n          ? transition->deltaMinutes : TimeOffset::kErrorMinutes;\n      return TimeOffset::forMinutes(minutes);\n    }\n',
+         replace='    TimeOffset getUtcOffset(acetime_t epochSeconds) const override {\n      return offsetField<&basic::Transition::offsetMinutes>(epochSeconds);\n    }\n\n    TimeOffset getDeltaOffset(acetime_t epochSeconds) const override {\n      return offsetField<&basic::Transition::deltaMinutes>(epochSeconds);\n    }\n\n    template<int16_t basic::Transition::* FIELD>\n    TimeOffset offsetField(acetime_t epochSeconds) const {\n      const basic::Transition* transition = getTransition(epochSeconds);\n      int16_t minutes = (transition)\n          ? transition->*FIELD : TimeOffset::kErrorMinutes;\n      return TimeOffset::forMinutes(minutes);\n    }\n',
+         expect='silent'),
+    dict(id='offset-accessors-instantiated-with-each-other-s-field', file='src/ace_time/BasicZoneProcessor.h',
+         find='    TimeOffset getUtcOffset(acetime_t epochSeconds) const override {\n      const basic::Transition* transition = getTransition(epochSeconds);\n      int16_t minutes = (transition)\n          ? transition->offsetMinutes : TimeOffset::kErrorMinutes;\n      return TimeOffset::forMinutes(minutes);\n    }\n\n    TimeOffset getDeltaOffset(acetime_t epochSeconds) const override {\n      const basic::Transition* transition = getTransition(epochSeconds);\n      int16_t minutes = (transition)\n          ? transition->deltaMinutes : TimeOffset::kErrorMinutes;\n      return TimeOffset::forMinutes(minutes);\n    }\n',
+         replace='    TimeOffset getUtcOffset(acetime_t epochSeconds) const override {\n      return offsetField<&basic::Transition::deltaMinutes>(epochSeconds);\n    }\n\n    TimeOffset getDeltaOffset(acetime_t epochSeconds) const override {\n      return offsetField<&basic::Transition::offsetMinutes>(epochSeconds);\n    }\n\n    template<int16_t basic::Transition::* FIELD>\n    TimeOffset offsetField(acetime_t epochSeconds) const {\n      const basic::Transition* transition = getTransition(epochSeconds);\n      int16_t minutes = (transition)\n          ? transition->*FIELD : TimeOffset::kErrorMinutes;\n      return TimeOffset::forMinutes(minutes);\n    }\n',
+         rule='F'),
 ]
